@@ -319,6 +319,7 @@ func blockOnListChangeWorker(
 		ctx.l.Tracef("waiting for %s to get a list item until %s", keyNameStr(), end.Format(time.StampMilli))
 	}
 
+	verifPoint("blk:before-begin", ctx.cs.id, "")
 	// from here on the client counts as blocked for CLIENT UNBLOCK
 	ctx.cs.beginBlocking()
 	defer ctx.cs.endBlocking()
